@@ -637,6 +637,123 @@ theorem no_fix_report_moves_station_witness :
     recvGACpkt flatGlue .source { st with ego := egoAfter false st.ego h } ⟨origin, 5, 7⟩ 7 = [.forwardNonArea] := by
   decide +kernel
 
+/-! ## Round 6: the forwarder's state (SCF, no neighbour), the PAI bit on the wire, sequences of evaluations -/
+
+/-- without the buffer state the state-aware receive functions are the plain ones -/
+theorem recv_state_no_buffer (i : RxIn) : recvGBCst false i = recvGBC i ∧ recvGACst false i = recvGAC i := by
+  constructor
+  · unfold recvGBCst recvGBC fwdActs
+    cases annexD i.fEgo i.se <;> simp
+  · unfold recvGACst recvGAC
+    simp
+
+/-- **oversize packet not forwarded in ANY state of the forwarder** (`bc` = no neighbour in the location table and
+store-carry-forward in the traffic class, or not) -/
+theorem oversize_not_forwarded_any_state (bc : Bool) (i : RxIn) (h : i.oversize = true) :
+    Action.forwardArea ∉ recvGBCst bc i ∧ Action.forwardNonArea ∉ recvGBCst bc i ∧
+    Action.forwardArea ∉ recvGACst bc i ∧ Action.forwardNonArea ∉ recvGACst bc i := by
+  unfold recvGBCst recvGACst
+  by_cases hf : 0 ≤ i.fEgo <;> simp [h, hf]
+
+/-- ... for the guard position of the source: the size control of `gn_data_indicate_gbc` is a top-level guard that
+precedes every forwarder call (`guardFirst indicateGbc`, regenerated), so it holds in the buffer state too -/
+theorem oversize_not_forwarded_any_state_of_source (bc : Bool) (i : RxIn) (h : i.oversize = true) :
+    Action.forwardArea ∉ recvGBCguardAt (guardFirst Generated.AreaFacts.indicateGbc) bc i ∧
+    Action.forwardNonArea ∉ recvGBCguardAt (guardFirst Generated.AreaFacts.indicateGbc) bc i := by
+  have hg : guardFirst Generated.AreaFacts.indicateGbc = true := by decide
+  rw [hg]
+  simp only [recvGBCguardAt, if_true]
+  exact ⟨(oversize_not_forwarded_any_state bc i h).1, (oversize_not_forwarded_any_state bc i h).2.1⟩
+
+example : recvGBCst true ⟨-1, 5, false, false, none⟩ = [.forwardArea] ∧ recvGBCst true ⟨-1, 5, true, false, none⟩ = [] := by
+  decide +kernel
+
+/-- the size control inside the "neighbour exists or SCF not set" branch of the forwarder (C07-m10): an oversized packet is
+transmitted by a station without neighbours when the traffic class has SCF, inside and outside the area - and refused
+as soon as a neighbour is known -/
+theorem oversize_forwarded_guard_in_branch_witness :
+    recvGBCguardAt false true ⟨-1, 5, true, false, none⟩ = [.forwardArea] ∧
+    recvGBCguardAt false true ⟨1, 5, true, false, none⟩ = [.deliver, .forwardArea] ∧
+    recvGBCguardAt false false ⟨-1, 5, true, false, none⟩ = [] := by decide +kernel
+
+/-- the word `PAI | S | H` of the long position vector: flag at bit `paiShift`, `bits`-bit two's complement of the signed
+speed at bit 16, heading below -/
+def paiWord (bits : Nat) (pai : Bool) (speed : Int) (heading : Nat) : Nat :=
+  (if pai then 2 ^ 31 else 0) ||| ((speed % (2 ^ bits : Nat)).toNat <<< 16) ||| heading
+
+/-- `encode` and `encode_to_int` of the source: PAI at bit 31, 15-bit speed at bit 16 (regenerated by harness/gen_area.py) -/
+theorem pai_bit_layout_of_source :
+    Generated.AreaFacts.lpvLayout = [("encode", 31, 15, 16), ("encode_to_int", 31, 15, 16)] := by decide
+
+/-- **the PAI flag on the wire is the sender's**, for every speed (negative = reversing) and every 16-bit heading -/
+theorem wire_pai_is_senders (pai : Bool) (speed : Int) (heading : Nat) (hh : heading < 2 ^ 16) :
+    (paiWord 15 pai speed heading).testBit 31 = pai := by
+  unfold paiWord
+  have hs : (speed % ((2 ^ 15 : Nat) : Int)).toNat < 2 ^ 15 := by omega
+  have h1 : ((speed % ((2 ^ 15 : Nat) : Int)).toNat <<< 16) < 2 ^ 31 := by
+    rw [Nat.shiftLeft_eq]; omega
+  have h2 : heading < 2 ^ 31 := by omega
+  rw [Nat.testBit_or, Nat.testBit_or, Nat.testBit_lt_two_pow h1, Nat.testBit_lt_two_pow h2]
+  cases pai
+  · simp
+  · simp only [if_true, Bool.or_false]
+    decide
+
+/-- a 16-bit speed field (C07-m11): a reversing sender WITHOUT position accuracy goes out with the PAI bit set -/
+theorem wire_pai_16bit_speed_witness : (paiWord 16 false (-150) 0).testBit 31 = true ∧ (paiWord 15 false (-150) 0).testBit 31 = false := by
+  decide +kernel
+
+/-- the geometric function and its helpers write nothing that outlives the call, read no instance / class data and
+carry no (memoising) decorator -/
+def statelessSrc (l : List (String × List String × List String × List String)) : Bool :=
+  l.map (·.1) == ["gn_geometric_function_f", "calculate_distance", "rotate_to_area_frame"] &&
+  l.all (fun x => x.2.1.isEmpty && x.2.2.1.isEmpty && x.2.2.2.isEmpty)
+
+theorem geometric_function_is_stateless_of_source : statelessSrc Generated.AreaFacts.fState = true := by decide
+
+/-- **every evaluation of a sequence on one router is the evaluation of that query alone** (all sequences, all queries) -/
+theorem F_sequence_history_free_of_source (qs : List FQuery) :
+    evalSeqAt (statelessSrc Generated.AreaFacts.fState) qs = qs.map FQuery.eval := by
+  have h : statelessSrc Generated.AreaFacts.fState = true := by decide
+  simp [evalSeqAt, h]
+
+/-- **which memo would be sound**: a one-entry cache of the rotated offset answers every sequence like the stateless
+function iff-direction "if": equal keys imply equal rotated offsets (the key must determine centre, point AND azimuth) -/
+theorem memo_sound_of_key {κ : Type} [DecidableEq κ] (key : FQuery → κ)
+    (hk : ∀ q q' : FQuery, key q = key q' → q.frame = q'.frame) (qs : List FQuery) :
+    ∀ m : Option (κ × Rat × Rat), (∀ k p, m = some (k, p) → ∀ q, key q = k → q.frame = p) →
+      runMemo key m qs = qs.map FQuery.eval := by
+  induction qs with
+  | nil => intro m _; rfl
+  | cons q qs ih =>
+    intro m hm
+    have hp : (evalMemo key m q) = (some (key q, q.frame), q.eval) := by
+      unfold evalMemo FQuery.eval
+      cases m with
+      | none => rfl
+      | some kp =>
+        obtain ⟨k, p⟩ := kp
+        by_cases hkq : k = key q
+        · have := hm k p rfl q hkq.symm
+          simp [hkq, this]
+        · simp [hkq]
+    simp only [runMemo, List.map_cons, hp]
+    congr 1
+    apply ih
+    intro k p hkp q' hq'
+    simp only [Option.some.injEq, Prod.mk.injEq] at hkp
+    obtain ⟨h1, h2⟩ := hkp
+    rw [← h2]
+    exact hk q' q (by rw [hq', h1])
+
+/-- the key WITHOUT the azimuth (C07-m12): ellipse 400 x 50, point 300 m north; azimuth 0 (point on the long axis: inside)
+then azimuth 90 (250 m outside): the second answer is the first one's; alone it is negative -/
+theorem memo_without_azimuth_witness :
+    let q0 : FQuery := ⟨.ellipse, 400, 50, 1, 0, 300, 0⟩
+    let q90 : FQuery := ⟨.ellipse, 400, 50, 0, 1, 300, 0⟩
+    evalSeqAt false [q0, q90] = [q0.eval, q0.eval] ∧ evalSeqAt true [q0, q90] = [q0.eval, q90.eval] ∧
+    q0.eval = .ok (7 / 16) ∧ q90.eval = .ok (-35) := by decide +kernel
+
 /-! ## Model facts (restate definitions; not part of the claimed list) -/
 namespace Model
 
